@@ -25,6 +25,7 @@ META["explanation"] += " " + '(SB-eqlen) the equality members of String / String
 META["explanation"] += " " + '(PR-sortperm) the container-level Sort members reorder only: they call no membership-changing operation and write no element directly.'
 META["explanation"] += " " + 'PR-sort additionally: on every path through the loop body the ranges recursed into or continued with include [start, pivot) and [pivot + 1, end) (linear forms of the range arguments), and every element access has start <= index < end (E-ZONE, under start <= end, which every recursive call re-establishes).'
 META["explanation"] += " " + 'SB-eqlen is a must-analysis on the CFG: "lengths equal" is established on the true edge of a length == test or the false edge of a != test and must hold at every content comparison and at every return of operator== that can answer true.'
+META["explanation"] += " " + "SB-value additionally: the five comparison operators of Value test the same chain of dispatch conditions in the same order. SB-ops additionally: the length passed for the right-hand text is derived from the operator's argument."
 
 SU = "Qentem::StringUtils::"
 
@@ -123,6 +124,21 @@ def run(ctx):
                     len1 = f.text(args[2]) if len(args) > 2 else ""
                     ok = f.call_simple_name(c[0]) == want[op][0] and flag == want[op][1] and first in ("First()",) and len1 in ("Length()",)
                     why = "%s(%s, .., %s, .., %s); want %s(First(), .., Length(), .., %s)" % (f.call_simple_name(c[0]), first, len1, flag, want[op][0], bool(want[op][1]))
+                    # the second length belongs to the second text: it is derived from the operator's argument (Count(str),
+                    # string.Length(), a local computed from it), never from this object
+                    if ok and len(args) > 3:
+                        pn = f.params[0]["n"]
+                        l2 = args[3]
+                        l2n = f.nodes[f.strip_casts(l2)]
+                        l2t = f.text(l2)
+                        if l2n["k"] == "DeclRefExpr" and l2n.get("dk") == "var":
+                            for ds in astq.nodes_of(f, "DeclStmt"):
+                                for d_ in f.nodes[ds]["decls"]:
+                                    if d_.get("d") == l2n.get("d") and d_.get("init", -1) >= 0:
+                                        l2t = f.text(d_["init"])
+                        if not re.search(r"\b%s\b" % re.escape(pn), l2t):
+                            ok = False
+                            why = "the length passed for the right-hand text is `%s`, which is not derived from the argument `%s`: when this object is a proper prefix of the text the two are cut to the same length and neither <, == nor > holds" % (f.text(l2), pn)
                 r.ob(f.sig, "operator" + op, ok, why, "%s:%d" % (f.file.split("/Include/")[-1], f.line))
             elif op == "!=":
                 t = " ".join(f.text(x) for x in astq.returns(f))
@@ -160,6 +176,33 @@ def run(ctx):
              ("arms using another operator: %s; " % bad if bad else "") + "cross-kind fallback `%s`%s" % (fb, "" if okfb else
              (" is not symmetric: a == b and b == a disagree for values of different kinds" if op == "==" else " does not order kinds by their rank")),
              "Include/Value.hpp:%d" % f.line)
+    # the five operators dispatch alike: the chain of conditions of their top-level if / else-if (same kind? pointer?) is the
+    # same list in the same order -- a case added to some of them, or tested in another order in one of them, makes the five
+    # answers describe different orders (a > b and a <= b both true; a pointer equal to nothing, not even itself)
+    chains = {}
+    for f in m.functions:
+        if f.inst or f.cls != "Qentem::Value" or f.d.get("op") not in ("<", "<=", ">", ">=", "==") or len(f.params) != 1 or "Value" not in f.params[0]["t"]:
+            continue
+        top = f.nodes[f.body].get("ch", [])
+        chain = []
+        for x in top:
+            n = f.nodes[x]
+            while n["k"] == "IfStmt":
+                chain.append(re.sub(r"\s+", "", f.text(n["cond"])))
+                if n.get("else", -1) is not None and n.get("else", -1) >= 0 and f.nodes[n["else"]]["k"] == "IfStmt":
+                    n = f.nodes[n["else"]]
+                else:
+                    break
+        chains[f.d["op"]] = (chain, f)
+    if len(chains) == 5:
+        from collections import Counter
+        major = Counter(tuple(c[0]) for c in chains.values()).most_common(1)[0][0]
+        for op, (chain, f) in sorted(chains.items()):
+            ok = tuple(chain) == major
+            r.ob(f.sig, "dispatch of operator" + op, ok, "tests %s, like its siblings" % list(major) if ok else
+                 "tests %s where the other operators test %s: the five comparisons no longer describe one order" % (chain, list(major)), "Include/Value.hpp:%d" % f.line)
+    else:
+        r.broke("Value: expected five comparison operators taking a Value, found %s" % sorted(chains))
     rules.append(r)
 
     # ---------------- PR-sort / SK-depth
